@@ -71,13 +71,23 @@ class C16(Prop):
             return v
         fmin, fmax = FCH1 + FOFF * (C - 1), FCH1
 
+        # the channel centres as the header computes them (float32 arithmetic); NumPy compares a Python-float bound
+        # with them in float32, so a bound closer than a float32 rounding step to a centre without being equal to
+        # it would be compared differently by an exact oracle: bounds are either exactly a centre or well away
+        centres = [float(v) for v in (np.arange(C, dtype=np.float32) * FOFF + FCH1)]
+
+        def clear(v):
+            while any(0 < abs(v - c) < 1e-2 for c in centres):
+                v += 0.013
+            return v
+
         def mk_ranges():
             ranges = []
             for _ in range(rng.choice((0, 1, 2, 3))):
-                a = rng.uniform(fmin - 10, fmax + 10)
-                ranges.append([a, a + rng.choice((0.0, 2.0, 7.5, 30.0))])
+                a = clear(rng.uniform(fmin - 10, fmax + 10))
+                ranges.append([a, clear(a + rng.choice((0.0, 2.0, 7.5, 30.0)))])
             if rng.random() < 0.2 and C > 3:
-                f = FCH1 + FOFF * rng.randrange(C)
+                f = centres[rng.randrange(C)]
                 ranges.append([f, f])       # a closed range holding exactly one channel centre
             return ranges
 
